@@ -13,3 +13,7 @@ def run(ctx):
     return ctx.finish(level='proof', rule=RULES['01'] + '; plus batches of 1-4 random sentences through the real depccg.parsing.run (en / ja / en with seen rules / synthetic multi-label grammars), 1-4 best, placeholder cases',
                       assumptions=['exact arithmetic on the dyadic grid; float32 rounding of arbitrary reals is outside the model',
                                    'heap tie-breaking abstracted (every maximal pop allowed); 1-best theorems need head-uniform grammars and penalty >= 0'])
+
+
+def replay(data):
+    return astar_checks.replay(data, 'c02')
